@@ -144,8 +144,54 @@ func (e *ErrV) invoke(ex *Exec, m string, args []Value) Value {
 	panic(pathAbort{"UNSUPPORTED error method " + m})
 }
 
-// BufRd models a bufio.Reader over a ConnV.
-type BufRd struct{ conn *ConnV }
+// BufRd models a bufio.Reader: over a ConnV byte by byte (buffering is transparent there), over any other
+// io.Reader of the program (e.g. the WebSocket wsConn) with a real buffer filled by the reader's interpreted
+// Read method, as bufio.(*Reader).fill does (up to 100 empty reads, then io.ErrNoProgress; a read error is
+// reported once the buffered bytes are used up).
+type BufRd struct {
+	conn *ConnV
+	rd   Iface
+	size int
+	buf  []*Term
+	err  Iface
+}
+
+func (r *BufRd) readByte(ex *Exec) (*Term, Iface) {
+	if r.rd.t == nil {
+		return r.conn.readByte(ex)
+	}
+	for empty := 0; len(r.buf) == 0; empty++ {
+		if r.err.t != nil {
+			e := r.err
+			r.err = Iface{}
+			return Const(8, 0), e
+		}
+		if empty >= 100 {
+			return Const(8, 0), ex.sh.ioErr(ex, "ErrNoProgress")
+		}
+		m := ex.lookupMethod(r.rd.t, "Read")
+		if m == nil {
+			panic(pathAbort{"UNSUPPORTED bufio over reader without Read: " + r.rd.t.String()})
+		}
+		arr := make(Array, r.size)
+		for i := range arr {
+			arr[i] = Const(8, 0)
+		}
+		p := Slice{arr: &Obj{v: arr}, len: r.size, cap: r.size}
+		res := ex.call(m, []Value{r.rd.v, p}, nil).(Tuple)
+		n := ex.concretize(res[0].(*Term), 0, r.size, true)
+		if n < 0 || n > r.size {
+			panic(&goPanic{msg: "bufio: reader returned negative count from Read"})
+		}
+		for i := 0; i < n; i++ {
+			r.buf = append(r.buf, arr[i].(*Term))
+		}
+		r.err = res[1].(Iface)
+	}
+	b := r.buf[0]
+	r.buf = r.buf[1:]
+	return b, Iface{}
+}
 
 func (sh *Shared) pkgVar(ex *Exec, pkg, name string) Value {
 	p := sh.prog.ImportedPackage(pkg)
